@@ -1229,6 +1229,8 @@ class Gen:
                 self.fail(line, "statements after `return`")
             if not ctx["can_return"]:
                 self.fail(line, "`return` in a function whose result is not TokenKind")
+            if e is None:
+                self.fail(line, "`return;` without a value is outside the subset")
             x = self.fresh("r")
             return self.bind(x, self.E(e, ctx), "%s %s" % (self.EARLY, x))
         if k == "break":
